@@ -1,4 +1,4 @@
-CONSTANT N = 6
+CONSTANT N = 7
 SPECIFICATION Spec
 INVARIANT Laws
 INVARIANT Emit
